@@ -306,6 +306,19 @@ func (w *World) genRanges() []Op {
 func (w *World) gen() []Op {
 	o := w.o
 	t := w.c.T
+	if w.large && (w.nextSer == 1 || t.Chance(1, 12)) {
+		n := 100 + t.Draw(1000)
+		if w.nextSer == 1 {
+			n = 900 + t.Draw(1800)
+		}
+		if w.c.Thorough() && w.nextSer == 1 && t.Chance(1, 6) {
+			n = 10050 + t.Draw(400) // beyond the real prune depth
+		}
+		op := Op{K: "grow", A: n, B: w.tip.Serial, C: w.nextSer}
+		w.nextSer += n
+		w.c.Nontrivial()
+		return []Op{op}
+	}
 	switch t.Weighted([]int{o.WMint, o.WDeliver, o.WClean, o.WSave, o.WReload, o.WSubscribe, o.WQuery, o.WAdversarial, o.WMark, o.WUnmark, o.WProof, o.WLocator, o.WCrash}) {
 	case 0:
 		return w.genMintStep()
